@@ -12,7 +12,7 @@ import (
 // ex: 2019-08-15T15:50:46.866Z
 func parseRFC3339Timestamp(timeStr string, timezoneCache map[string]*time.Location) (time.Time, error) {
 	t := timeStr
-	if t[4] != '-' || t[7] != '-' || t[10] != 'T' || t[13] != ':' || t[16] != ':' {
+	if len(t) < 19 || t[4] != '-' || t[7] != '-' || t[10] != 'T' || t[13] != ':' || t[16] != ':' {
 		return time.Now(), fmt.Errorf("invalid timestamp")
 	}
 	year := atoi4(t[0:4])
